@@ -40,6 +40,15 @@ def isExec : Val → Bool
   | .fn _ | .ref _ => true
   | _ => false
 
+/-- the number of values a built-in pops (`interpreter.pop()`) before it does anything else: on
+a shorter stack it raises `BibTeXError('pop from empty stack')`, whatever the operands are -/
+def arity : Builtin → Nat
+  | .gt | .lt | .eq | .mul | .assign | .plus | .minus | .changeCase | .swap | .textPrefix | .while_ => 2
+  | .formatName | .if_ | .substring => 3
+  | .addPeriod | .chrToInt | .duplicate | .empty | .intToChr | .intToStr | .missing | .numNames | .pop | .purify
+  | .textLength | .top | .warning | .width | .write => 1
+  | .callType | .cite | .newline | .preamble | .quote | .skip | .stack | .type_ => 0
+
 /-- the string consists of white space only (`empty$`: "missing, empty or white space only") -/
 def Blank (x : Str) : Prop := ∀ c ∈ x, isWs c = true
 
